@@ -1,5 +1,11 @@
-/- Driver glue for the keep-alive scenarios (`ka …` lines). -/
+/- Driver glue for the keep-alive scenarios (`ka …` lines).
+
+The "deaf" scenario kinds (a subject that has stopped READING) are computed on the connection
+life-cycle model (`Model/Lifecycle.lean`, the model of C16): the buffer condition the harness
+builds is reached by fair round-robin from an initial state, then the client is silent — the read
+deadline fires if a socket read is pending — and the outcome is what round-robin reaches. -/
 import Mqtt.Model.KeepAlive
+import Mqtt.Model.Lifecycle
 import Mqtt.Driver.Util
 
 namespace Mqtt.Driver.KeepAlive
@@ -15,10 +21,51 @@ structure Scn where
 structure St where
   scns : List Scn := []
 
+namespace Deaf
+open Mqtt.Model.Lifecycle
+
+/-- the harness's broker for the deaf kinds: 16 KiB rings, 8 KiB read / write blocks -/
+def cfg : Cfg := { cap := 16384, rblock := 8192, wblock := 8192 }
+
+/-- PUBLISH "echo/<id>" with 4000 payload bytes = 4011 bytes; `own`: the subject is subscribed to it itself -/
+def echoPkt : Pkt := ⟨3, 4011, .normal [.own 4011]⟩
+
+def fuel : Nat := 4000
+
+/-- the subject connection as the harness sets it up (will set, clean session, client not reading):
+* `deafecho`:  the subject sends ring/packet + 1 = 5 echo packets
+* `deafflood`: it keeps sending (8 packets; the last ones never leave the client)
+* `deafsub`:   it sends nothing; a third party's processor delivers 4011-byte packets to it -/
+def initial (kind : String) : Option Mqtt.Model.Lifecycle.St :=
+  let sh : Sh := { peerReads := false, willFlag := true, clean := true }
+  match kind with
+  | "deafecho" => some ({ sh := { sh with stream := List.replicate 5 echoPkt, wire := 5 * 4011 } } : Mqtt.Model.Lifecycle.St)
+  | "deafflood" => some ({ sh := { sh with stream := List.replicate 8 echoPkt, wire := 8 * 4011 } } : Mqtt.Model.Lifecycle.St)
+  | "deafsub" => some ({ sh := sh, ws := List.replicate 6 ⟨.check, 4011⟩ } : Mqtt.Model.Lifecycle.St)
+  | _ => none
+
+/-- the client is silent: round-robin to quiescence, the read deadline fires if a read is pending,
+round-robin again -/
+def outcome (kind : String) : Option String :=
+  (initial kind).map fun s0 =>
+    let s1 := drain cfg fuel s0
+    let s2 := match estep cfg s1 .kaExpire with
+      | some s => drain cfg fuel s
+      | none => s1
+    if TornDown s2 && Final s2 then
+      s!"active=ok final=expired will={if s2.sh.effects.contains .will then 1 else 0} window=ok"
+    else s!"active=ok final=alive will={if s2.sh.effects.contains .will then 1 else 0} window=never-closed"
+
+end Deaf
+
 /-- model: the active phase survives iff the interval is below the deadline; the
 silent phase always ends in expiry, which is an abnormal end (will published). -/
 def modelOutcome (s : Scn) : String :=
   let d := deadline (effective s.k)
+  -- the deaf kinds: life-cycle model
+  match Deaf.outcome s.kind with
+  | some o => o
+  | none =>
   -- "silentsub": the subject only subscribes and then sends nothing (a third party publishes to it
   -- every intervalMs): packets the broker SENDS do not count as activity
   if s.kind == "silentsub" then "active=ok final=expired will=1 window=ok"
@@ -29,6 +76,8 @@ def modelOutcome (s : Scn) : String :=
 well over 1.5 K does; in between nothing is demanded. -/
 def specOutcome (s : Scn) : String :=
   if s.k == 0 then "*"
+  -- a client that has stopped reading is, once it sends nothing any more, a silent client like any other
+  else if s.kind == "deafsub" || s.kind == "deafecho" || s.kind == "deafflood" then "active=ok final=expired will=1"
   else if s.kind == "silentsub" then "active=ok final=expired will=1"
   else if s.intervalMs < s.k * 1000 then "active=ok final=expired will=1"
   else if 2 * s.intervalMs > 3 * s.k * 1000 + 600 then "active=expired will=1"
